@@ -14,7 +14,10 @@ from ..core import Check, audit, import_repo
 from ..lean import Driver, hx
 
 LEVEL_NOTE = ("modelled, not verified: Python's int() literal syntax, str.split, sorted() stability as encoded in "
-              "Model/Index.lean; replies with non-ASCII characters are outside the modelled domain")
+              "Model/Index.lean; replies with non-ASCII characters are outside the modelled domain. C13Order: for every oracle the run IS "
+              "the fold of restoreOne over the entries at the reply's indices in the reply's order (duplicates included), stopping at the "
+              "first failure; permuted replies end in the same file system when the entries are apart; the nested pair shows that an "
+              "ascending-order variant is observably different")
 RULE = ("exhaustive: every reply of length <= 4 (thorough: <= 5) over {0,1,2,9,-,',',' ',+,a,_} x list lengths {1,3,10}; "
         "all ordered pairs of a 40-path set for the scope test; seeded random entry lists for the three sort modes; "
         "distinct by input; every case reaches the parser / scope test / sorter; world level: restore worlds incl. a well-filled "
